@@ -237,3 +237,33 @@ def _finfo_attr(E, obj, name):
     if name.startswith("__"):
         return NotImplemented
     raise Unsupported(f"finfo.{name}")
+
+
+# ------------------------------------------- opaque payloads: functional point update
+# payload.at[idx].set(x) / .add(x) (jax functional update of one slice of an opaque array): an UNINTERPRETED function of
+# (payload, index, value) - the result is some array, nothing is known about how it relates to `payload`
+# (in particular it is not provably equal to it).
+class PayloadAt:
+    def __init__(self, v, idx=None):
+        self.v, self.idx = v, idx
+
+
+def _payload_at_attr(E, v, name):
+    if isinstance(v, Sym) and v.z.sort() == VAL and name == "at":
+        return PayloadAt(v)
+    if isinstance(v, PayloadAt) and v.idx is not None and name in ("set", "add"):
+        f = C.uf(f"val_at_{name}", VAL, INT, VAL, VAL)
+        return Builtin(f"payload.at.{name}", lambda E, x, **kw: Sym(f(v.v.z, C.as_int(v.idx), to_sort(x, VAL))))
+    return NotImplemented
+
+
+def _payload_at_getitem(E, v, idx):
+    if isinstance(v, PayloadAt) and v.idx is None:
+        if isinstance(idx, bool) or not isinstance(idx, (int, Sym)):
+            raise Unsupported("payload.at[...] with a non-integer index")
+        return PayloadAt(v.v, idx)
+    return NotImplemented
+
+
+LIB.value_attr_handlers.insert(0, _payload_at_attr)
+LIB.getitem_handlers.insert(0, _payload_at_getitem)
